@@ -186,6 +186,8 @@ def run(chk, scratch):
         ev = out + "_ev"
         # every other job switches the polyA requirement off, so that loci seen from several regions without polyA evidence also yield models
         pr = ["--polya_requirement", "never"] if (seed + len(st) + len(dt)) % 2 == 0 else []
+        if annotated and len(st) % 2 == 1:
+            pr = pr + ["--sqanti_output"]      # the SQANTI-like table is computed between the two annotation dumps of a chromosome
         if resumed:
             r1 = pipeline.run(d, out, data_type=dt, threads=1, annotated=annotated, home=out + "_home",
                               extra=["--model_construction_strategy", st, "--report_novel_unspliced", "true"] + pr, mon=["crash"],
